@@ -96,6 +96,12 @@ def run(model, tier="quick"):
     nf, ns = run_guard(model, res)
     res.floor("functions_with_decrements", nf, 14)
     res.floor("decrement_sites", ns, 18)
+    # "all argument values": the wallet primitives run backwards on a negative amount, so every operation has to reject it
+    from ..rules.posarg import run_posarg
+    res.rules.append("R-POS")
+    n_ops, n_mov = run_posarg(model, res)
+    res.floor("operations_moving_value", n_ops, 25)
+    res.floor("value_movements_examined", n_mov, 300)
     fx = ["sub", "add", "subtract_from_balance", "add_to_balance", "__add_asset", "_record_action_callback"]
     effects_check(res, model, "Asset.sub", REF_ASSET_SUB, "wallet debit: overdraft rejected, dust (<1e-5 relative) snaps to zero, "
                   "no-op only when balance and amount are both zero", fx)
